@@ -1266,6 +1266,10 @@ def c13_layouts(tier, seed):
     Ls.append(Layout(8, [Field("a", T_uint(4), [(0, 1), (2, 1), (4, 1), (6, 1)], (2, 1, True), "rw")], tag="interleaving even/odd array with builder (documented test)"))
     Ls.append(Layout(24, [Field("a", T_uint(8), [(0, 8)], (3, 8, False), "w")], tag="u24 three bytes write-only complete"))
     Ls.append(Layout(9, [Field("r0", T_uint(4), [(0, 4)], None, "r"), Field("w0", T_uint(5), [(4, 5)], None, "w")], default=("lit", 0x1ff, "hex"), tag="read-only gap keeps default bits"))
+    for W in (16, 64, 24):
+        h = W // 2
+        Ls.append(Layout(W, [Field("status", ty_for_width(h, "u1"), [(0, h)], None, "r"), Field("cmd", ty_for_width(h, "u1"), [(0, h)], None, "w"), Field("hi", ty_for_width(W - h, "u1"), [(h, W - h)], None, "rw"), Field("view", T_uint(W), [(0, W)], None, "r")], tag=f"complete writable cover without default plus read-only views of the same bits on u{W}"))
+        Ls.append(Layout(W, [Field("cmd", ty_for_width(h, "u1"), [(0, h)], None, "w"), Field("status", ty_for_width(h, "u1"), [(0, h)], None, "r"), Field("hi", ty_for_width(W - h, "u1"), [(h, W - h)], None, "rw")], default=("lit", mask(W) ^ 2, "hex"), tag=f"read-only view overlapping a writable field, default with bits set there, on u{W}"))
     # dense native-integer arrays that do not start at bit 0, in a storage wider than the packed array
     for (W, ety, lo, K) in ((64, T_uint(8), 8, 4), (64, T_int(16), 16, 2), (128, T_uint(32), 32, 3), (32, T_uint(8), 8, 2), (128, T_int(8), 40, 8), (128, T_uint(64), 64, 1 + 0) if False else (128, T_uint(16), 72, 3), (48, T_uint(8), 16, 4), (100, T_int(32), 20, 2)):
         Ls.append(Layout(W, [Field("lo", ty_for_width(lo, "u1"), [(0, lo)], None, "rw"), Field("a", ety, [(lo, ety.width)], (K, ety.width, False), "rw")], default=("lit", mask(W) ^ (1 << (W - 1)), "hex"), tag=f"dense [{ety.decl_ty()}; {K}] starting at bit {lo} of u{W}"))
@@ -2063,6 +2067,8 @@ def plan_c14(tier, seed):
     extra = [(L, "") for L in (c13[:25] + c13[-8:] if tier == "quick" else c13_layouts("thorough", seed)[:200] + c13[-8:])]
     extra += [(L, "overlapping-random-layout") for L in c12_layouts("quick", 0) if not L.builder_expected()][: (12 if tier == "quick" else 60)]
     for W in (8, 32, 24, 128):
+        h = W // 2
+        cands.append((Layout(W, [Field("cmd", ty_for_width(h, "u1"), [(0, h)], None, "w"), Field("hi", ty_for_width(W - h, "u1"), [(h, W - h)], None, "rw"), Field("status", ty_for_width(h, "u1"), [(0, h)], None, "r"), Field("resv", T_bool(), [(W - 1, 1)], None, "")], tag=f"complete writable cover, no default, plus a read-only view and an access-less field on u{W}"), ""))
         cands.append((Layout(W, [Field("id", T_uint(4), [(0, 4)], None, "r")], default=("lit", 0x5, "hex"), tag=f"default and only a read-only field on u{W}"), ""))
         cands.append((Layout(W, [], default=("lit", 0x1, "hex"), tag=f"default and no fields at all on u{W}"), ""))
         cands.append((Layout(W, [Field("id", T_uint(4), [(0, 4)], None, "")], default=("lit", 0x5, "hex"), tag=f"default and a field without access specifier on u{W}"), ""))
@@ -2175,6 +2181,9 @@ def c10_candidates(tier, seed):
     # exhaustive = true with cfg-gated alternatives that share a discriminant
     for (bits, ds, cfg) in ((1, [0, 1, 1], [None, "off", "off"]), (1, [0, 1, 1], [None, "on", "off"]), (2, [0, 1, 2, 3, 3], [None, None, None, "off", "off"]), (2, [0, 0, 1, 2, 3], ["off", "on", None, None, None])):
         add1(bits, ds, "true", "cfg-without-conditional", f"u{bits}: exhaustive = true with cfg'd alternatives sharing a discriminant {list(zip(ds, cfg))}", cfg=cfg)
+    # variants gated through cfg_attr (a compile error today; if a tree accepts them the enum must still be sound)
+    for (bits, ds, cfg, ex) in ((2, [0, 1, 2, 3], [None, None, None, "off_attr"], "true"), (1, [0, 1], ["off_attr", None], "true"), (2, [0, 1, 3], [None, None, "off_attr"], None)):
+        add1(bits, ds, ex, "cfg-attr-gated-variant", f"u{bits}: variant gated through #[cfg_attr(.., cfg(..))] {list(zip(ds, cfg))}, exhaustive={ex}", cfg=cfg)
     # unsupported storage sizes
     add(65, [0, 1], None, "bad-storage-size", "u65 storage")
     add(0, [0], None, "bad-storage-size", "u0 storage")
